@@ -195,7 +195,7 @@ def check_files(case: typing.Any, ctx: Ctx) -> Info:
     return Info(bool(want_trans) or len(ws["roots"]) >= 2, classes, sample={"targets": [wsp.rel_path(ws, ws["defs"][i]) for i in targets], "transitive": ids(want_trans)})
 
 
-DIR_POOL = ["p0/ns", "p0/ns/sub", "p0/ns/sub/deeper", "p1/ns", "p1/NS", "p1/other", "p2/Other", "p2/nsx", "p3/ns/x/ns"]
+DIR_POOL = ["p0/ns", "p0/ns/sub", "p0/ns/sub/deeper", "p1/ns", "p1/NS", "p1/other", "p2/Other", "p2/nsx", "p3/ns/x/ns", "p2/ns", "p0/nsub", "p0/ns/s"]
 
 
 def check_dirsets(case: typing.Any, ctx: Ctx) -> Info:
